@@ -552,7 +552,12 @@ class SchemaValidationContext:
                 )
 
     def validate_enum_values(self, enum_type: GraphQLEnumType) -> None:
-        enum_values = enum_type.values
+        try:
+            enum_values = enum_type.values
+        except GraphQLError as error:
+            # the values are built lazily: report what building them reports
+            self.report_error(error.message, error.nodes)
+            return
 
         if not enum_values:
             self.report_error(
